@@ -240,7 +240,7 @@ def coqchk(prop):
 # ------------------------------------------------------------------------------------------------
 # pipeline: programs -> implementation / model / monitors
 
-SIZES = {"quick": dict(flat=60, wf=150, fault=114, free=120, known=9, chains=25, chain_exh=3, perm_bases=90, perms=3, stub_bases=55, skel=2, names=False, tiny=1),
+SIZES = {"quick": dict(flat=60, wf=150, fault=114, free=120, known=9, chains=25, chain_exh=3, perm_bases=100, perms=3, stub_bases=65, skel=2, names=False, tiny=1),
          "thorough": dict(flat=800, wf=3000, fault=1900, free=3000, known=60, chains=300, chain_exh=6, perm_bases=500, perms=4, stub_bases=400, skel=4, names=True, tiny=2),
          "search": dict(flat=250, wf=900, fault=570, free=900, known=30, chains=60, chain_exh=4, perm_bases=150, perms=3, stub_bases=120, skel=3, names=False, tiny=1)}
 
